@@ -27,7 +27,7 @@ ASSUMPTIONS = [
     "gcc 12 -pedantic-errors is the validity oracle for tier 1 and the corner catalogue; for tier 2 it can only turn an alarm into a harness error",
     "implicit int (not C99) is not generated; declarations that declare nothing are not generated",
 ]
-QUARANTINE_T2 = ("ext.implicit_int", "lit.u8_char_constant")
+QUARANTINE_T2 = ("ext.implicit_int", "lit.u8_char_constant", "init.empty_braces")  # not C99/C11: outside this property
 
 
 def t1_shard(arg):
